@@ -310,6 +310,12 @@ def run_input(r, sc, stats, full=True, pick=None):
 
     def one(mode, crash=None, fault=None, expect=None, alarm=None):
         rc, pid, t0, t1, ev = r.execute(uid, crash=crash, fault=fault, hold_trigger=hold, alarm=alarm)
+        if not ev:
+            # not a single traced call: the program ran without the interposer (ld.so skips an unreadable preload silently) - nothing
+            # can be judged, and certainly no crash or fault was injected
+            stats.inconclusive += 1
+            stats.cls("ran_without_interposer")
+            return None, ev, rc
         v, reached, _ = judge(r, sc, msg, env, uid, uidclass, rc, pid, t0, t1, ev, mode, expect)
         if v == "INCONCLUSIVE":
             stats.inconclusive += 1
